@@ -29,7 +29,7 @@ struct L09 : Listener {
         if (k != "param" && k != "lockg" && k != "unlockg") return;
         std::vector<SGroup> post = takeSnap(in.o()).groups;
         if (k == "lockg" || k == "unlockg") {
-            std::string gname = groupNameOf(op.arg(0));
+            std::string gname = in.groupOf(op.arg(0));
             std::vector<SGroup> want = pre; bool found = false;
             for (auto &g : want) if (g.name == gname) { g.locked = (k == "lockg"); found = true; break; }
             if (!found) {
@@ -40,7 +40,7 @@ struct L09 : Listener {
             if (!d.empty()) fail(i, op, "lock toggle changed something else / did not change the flag: " + d);
             return;
         }
-        ParamSpec sp = paramSpecOf(op);
+        ParamSpec sp = in.specOf(op);
         // (a) Parameter::set acceptance rule
         const bool setRefusedNow = o.threw && o.note == "set-refused";
         if (!sp.untyped) {
